@@ -39,10 +39,12 @@ class KeyCalc(object):
                         if value < 0:
                             bits.invert(range(1, 64))
                         value = bits.hex
+                    # every part ends with a NUL (which sorts before any other character),
+                    # so that the key compares field by field
                     if formatters:
-                        ret += formatters[i].format(**{key: value})
+                        ret += formatters[i].format(**{key: value}) + '\x00'
                     else:
-                        ret += str(value)
+                        ret += str(value) + '\x00'
                 return ret
             return func
         assert False, 'key should be either a format string or a row->string callable'
